@@ -99,6 +99,9 @@ def programs(tier):
               'let r = reduce(func (acc, x) => acc - x, %s, [%s, %s]);' % (P(1), P(2), P(3)), 'let r = map(func (k, v) => [k, v + %s], {a = %s, b = %s});' % (P(1), P(2), P(3)),
               'let r = filter(func (k, v) => v > %s, {a = %s, b = %s});' % (P(1), P(2), P(3)),
               'let r = reduce(func (acc, k, v) => acc{s = self.s + v}, {s = %s}, {a = %s, b = %s});' % (P(1), P(2), P(3)),
+              # a tuple mapper whose result is not a [name, value] list (the reference: "the result should be a two item list")
+              'let r = map(func (k, v) => v + %s, {a = %s});' % (P(1), P(2)), 'let r = map(func (k, v) => [k], {a = %s});' % P(1), 'let r = map(func (k, v) => [v, k], {a = %s});' % P(1),
+              'let r = map(func (k, v) => select (v > %s, [k, v]) => {true = v}, {a = %s, b = %s});' % (P(1), P(2), P(3)),
               'let r = map(func (c) => c + c, "ab");', 'let r = filter(func (c) => c != "a", "aba");', 'let r = reduce(func (acc, c) => acc + [c], [], "ab");',
               'let r = map(func (x) => x, %s);' % P(1), 'let r = filter(func (x) => select (x > %s, NULL) => {true = x}, [%s, %s]);' % (P(1), P(2), P(3)),
               'let r = map(func (x) => x + 1, []);', 'let f = func (x) => x * %s; let r = map(f, [%s]);' % (P(1), P(2))]:
